@@ -1055,3 +1055,274 @@ def cli_roundtrip(s, docs, tmpdir, tag, non_strict=True, incomplete=True):
             pass
     s.hist['cli_roundtrips'] += 1
     return rc, reread, lib, argv
+
+
+# --------------------------------------------------------------------------
+# hostile callers and a failing environment (seeding round 14): the same small, order-sensitive collection
+# handed over in every way a caller may legitimately hand it over, and with the environment failing part-way.
+# Oracle: the one-by-one fold; an environment failure leaves as ITSELF (not as a merge error, not as success),
+# with nothing after it merged.
+
+def _hc_docs(rng, idx):
+    ro_txt = gen.grid_ro(['A', 'B', 'C'], 'none', pretty=False)
+    docs = [ro_txt,
+            B.msg_doc('roStoryAppend', 10, carried=[gen.simple_story('D%d' % idx, 1)]),
+            B.msg_doc('roStoryMove', 20, ids=['C'], target='A'),
+            B.msg_doc('roItemInsert', 30, story_ref='B', target=B.BLANK, carried=[B.item('n%d' % idx, 'new')]),
+            B.msg_doc('roStorySend', 40, story_ref='A', body=[B.E('p', 'script line %d' % idx)], fields=[B.E('storySlug', 'sent'), 'BODY']),
+            B.msg_doc('roStoryDelete', 50, ids=['B'] if idx % 2 else ['C']),
+            B.msg_doc('roDelete', 90)]
+    return docs
+
+
+def hostile_callers(s, n=12):
+    import collections
+    import os
+    import shutil
+    import tempfile
+    import mosromgr.moscollection as mcmod
+    from .. import events as EV
+    MosFile = s.mt.MosFile
+    tmp = tempfile.mkdtemp(prefix='verif-callers-')
+    cwd = os.getcwd()
+
+    def report(kind, det, docs, scenario):
+        s.custom_violation(kind, dict(det, scenario=scenario), {'type': 'hostile-caller', 'scenario': scenario, 'docs': docs},
+                           status=scenario)
+
+    def merged(mc, strict=False):
+        err, _w = merge_collection(s, mc, strict)
+        EV.drain()
+        return err
+    try:
+        for i in range(n):
+            if not s.mine(i):
+                continue
+            rng = s.rng('callers', i)
+            docs = _hc_docs(rng, i)
+            fold_text, n_failed, ferr, applied = hand_fold(s, docs, False)
+            EV.drain()
+            s.hist['hostile_caller_rounds'] += 1
+            EV.STATE['quiet'] = EV.STATE.get('quiet', 0) + 1
+            try:
+                # (a) a collection built from the caller's own list of readers; the caller goes on using the list
+                for what in ('clear', 'append-foreign', 'reverse'):
+                    readers = sorted(mcmod.MosReader.from_string(d) for d in rng.sample(docs, len(docs)))
+                    mc = mcmod.MosCollection(readers, allow_incomplete=True)
+                    if what == 'clear':
+                        readers.clear()
+                    elif what == 'reverse':
+                        readers.reverse()
+                    else:
+                        readers.append(mcmod.MosReader.from_string(
+                            B.msg_doc('roStoryDelete', 15, ids=['A']).replace('<roID>RO</roID>', '<roID>OTHER</roID>')))
+                    err = merged(mc)
+                    s.evaluations += 1
+                    s.note_sig(('caller', 'reader-list-' + what, str(mc) == fold_text))
+                    if err is not None or str(mc) != fold_text:
+                        report('collection-follows-the-callers-list-after-construction',
+                               {'then': what, 'exc': type(err).__name__ if err else None}, docs, 'reader-list-' + what)
+                # (b) from_strings over a list the caller sorts / clears afterwards; (c) other sequence types
+                for what in ('sort', 'reverse', 'clear', 'tuple', 'dict-view', 'deque', 'set'):
+                    seq = rng.sample(docs, len(docs))
+                    arg = {'tuple': tuple(seq), 'dict-view': dict.fromkeys(seq).keys(), 'deque': collections.deque(seq),
+                           'set': set(seq)}.get(what, seq)
+                    try:
+                        mc = mcmod.MosCollection.from_strings(arg, allow_incomplete=True)
+                        if what == 'sort':
+                            seq.sort()
+                        elif what == 'reverse':
+                            seq.reverse()
+                        elif what == 'clear':
+                            seq.clear()
+                        err = merged(mc)
+                        got = str(mc)
+                    except Exception as e:
+                        err, got = e, None
+                    s.evaluations += 1
+                    s.note_sig(('caller', 'strings-' + what, got == fold_text))
+                    if err is not None or got != fold_text:
+                        report('collection-depends-on-how-the-documents-were-handed-over',
+                               {'how': what, 'exc': type(err).__name__ if err else None, 'msg': str(err)[:120] if err else None},
+                               docs, 'strings-' + what)
+                # (d) document types: bytearray / memoryview / keyword arguments
+                d0 = docs[3]
+                want = str(MosFile.from_string(d0))
+                path = os.path.join(tmp, 'kw-%d.mos.xml' % i)
+                with open(path, 'w', encoding='utf-8') as f:
+                    f.write(d0)
+                for what, fn in (('bytearray', lambda: MosFile.from_string(bytearray(d0.encode('utf-8')))),
+                                 ('memoryview', lambda: MosFile.from_string(memoryview(d0.encode('utf-8')))),
+                                 ('keyword-string', lambda: MosFile.from_string(mos_xml_string=d0)),
+                                 ('keyword-path', lambda: MosFile.from_file(mos_file_path=path)),
+                                 ('keyword-strings', lambda: mcmod.MosCollection.from_strings(mos_file_strings=list(docs), allow_incomplete=True).ro),
+                                 ('keyword-files', lambda: mcmod.MosCollection.from_files(mos_file_paths=_hc_paths(tmp, i, docs), allow_incomplete=True).ro)):
+                    try:
+                        got = str(fn())
+                        err = None
+                    except Exception as e:
+                        got, err = None, e
+                    ok = err is None and (got == want or what in ('keyword-strings', 'keyword-files'))
+                    s.evaluations += 1
+                    s.note_sig(('caller', what, ok))
+                    if not ok:
+                        report('documented-argument-form-refused-or-read-differently',
+                               {'form': what, 'exc': type(err).__name__ if err else None, 'msg': str(err)[:120] if err else None},
+                               docs, what)
+                # malformed bytes are invalid XML from bytes as from str
+                for bad in (b'<mos><roCreate>', bytearray(b'not xml')):
+                    try:
+                        MosFile.from_string(bad)
+                        ename = 'returned'
+                    except Exception as e:
+                        ename = type(e).__name__
+                    s.evaluations += 1
+                    if ename != 'MosInvalidXML':
+                        report('documented-argument-form-refused-or-read-differently',
+                               {'form': 'malformed ' + type(bad).__name__, 'exc': ename}, docs, 'malformed-bytes')
+                # (e) a source that fails between construction and merge
+                for what in ('vanished', 'directory', 'emptied'):
+                    for strict in (True, False):
+                        paths = _hc_paths(tmp, i, docs)
+                        mc = mcmod.MosCollection.from_files(paths, allow_incomplete=True)
+                        k = 3        # the roItemInsert (message ID 30)
+                        os.unlink(paths[k])
+                        if what == 'directory':
+                            os.makedirs(paths[k])
+                        elif what == 'emptied':
+                            open(paths[k], 'w').close()
+                        err = merged(mc, strict)
+                        if what == 'directory':
+                            os.rmdir(paths[k])
+                        before_k, _nf, _fe, _ap = hand_fold(s, docs[:k], False)
+                        EV.drain()
+                        names = [c.__name__ for c in type(err).__mro__] if err is not None else []
+                        ok = err is not None and 'MosMergeError' not in names and str(mc) == before_k and not mc.completed
+                        s.evaluations += 1
+                        s.note_sig(('environment', 'file-' + what, strict, names[:1], ok))
+                        if not ok:
+                            report('environment-failure-during-merge-not-reported-as-itself',
+                                   {'what': 'message file ' + what + ' after the collection was built', 'strict': strict,
+                                    'exc': names[:2], 'completed': bool(mc.completed),
+                                    'holds_exactly_the_earlier_messages': str(mc) == before_k}, docs, 'file-' + what)
+                # (e2) a path in the list that cannot be opened when the collection is built: whatever allow_incomplete says
+                # (it is about a missing roDelete), the constructor fails with the system's error - it does not go on without
+                # that message
+                for what in ('vanished', 'directory'):
+                    for ai in (True, False):
+                        paths = _hc_paths(tmp, i, docs)
+                        k = 2
+                        os.unlink(paths[k])
+                        if what == 'directory':
+                            os.makedirs(paths[k])
+                        try:
+                            mc = mcmod.MosCollection.from_files(rng.sample(paths, len(paths)), allow_incomplete=ai)
+                            err = None
+                        except Exception as e:
+                            mc, err = None, e
+                        if what == 'directory':
+                            os.rmdir(paths[k])
+                        names = [c.__name__ for c in type(err).__mro__] if err is not None else []
+                        ok = err is not None and 'OSError' in names
+                        s.evaluations += 1
+                        s.note_sig(('environment', 'listed-path-' + what, ai, names[:1], ok))
+                        if not ok:
+                            report('environment-failure-while-building-a-collection-not-reported-as-itself',
+                                   {'what': 'a listed path is ' + what, 'allow_incomplete': ai,
+                                    'exc': names[:2] or 'a collection was built'}, docs, 'listed-path-' + what)
+                # (f) the roCreate was read when the collection was built: what happens to its file later is irrelevant
+                paths = _hc_paths(tmp, i, docs)
+                os.chdir(tmp)
+                rel = [os.path.relpath(p_) for p_ in paths]
+                mc = mcmod.MosCollection.from_files(rel, allow_incomplete=True)
+                os.unlink(paths[0])
+                os.chdir(cwd)
+                try:
+                    got = (mc.ro_id, str(mc.ro))
+                    err = None
+                except Exception as e:
+                    got, err = None, e
+                s.evaluations += 1
+                if err is not None or got != ('RO', str(MosFile.from_string(docs[0]))):
+                    report('collection-does-not-hold-the-roCreate-it-validated',
+                           {'exc': type(err).__name__ if err else None}, docs, 'roCreate-file-removed-after-construction')
+                # (g) S3: an empty body on one key; a GET that fails; a listing that fails on its second page
+                f3 = ensure_fake_s3()
+                for what in ('empty-body', 'whitespace-body', 'get-fails', 'second-read-of-roCreate-fails', 'page-2-fails'):
+                    bucket = 'hc-%d-%s' % (i, what)
+                    f3.BUCKETS.pop(bucket, None)
+                    for k_, d_ in enumerate(docs):
+                        body = d_
+                        if k_ == 2 and what == 'empty-body':
+                            body = ''
+                        if k_ == 2 and what == 'whitespace-body':
+                            body = '\n'
+                        f3.put(bucket, 'p/%02d.mos.xml' % k_, body)
+                    f3.CONFIG['page_size'] = 3
+                    f3.FAIL['page'] = 2 if what == 'page-2-fails' else None
+                    f3.FAIL['get'] = 4 if what == 'get-fails' else (len(docs) + 1 if what == 'second-read-of-roCreate-fails' else None)
+                    try:
+                        mc = mcmod.MosCollection.from_s3(bucket_name=bucket, prefix='p/', allow_incomplete=True)
+                        err = None
+                    except Exception as e:
+                        mc, err = None, e
+                    finally:
+                        f3.FAIL['page'] = f3.FAIL['get'] = None
+                    names = [c.__name__ for c in type(err).__mro__] if err is not None else []
+                    want_exc = {'empty-body': 'MosInvalidXML', 'whitespace-body': 'MosInvalidXML', 'get-fails': 'ConnectionResetError',
+                                'second-read-of-roCreate-fails': 'ConnectionResetError', 'page-2-fails': None}[what]
+                    ok = err is not None and (want_exc in names if want_exc else 'InvalidMosCollection' not in names and 'MosRoMgrException' not in names)
+                    s.evaluations += 1
+                    s.note_sig(('environment', 's3-' + what, names[:1], ok))
+                    if not ok:
+                        report('environment-failure-while-building-a-collection-not-reported-as-itself',
+                               {'what': what, 'exc': names[:2] or 'a collection was built', 'msg': str(err)[:120] if err else None},
+                               docs, 's3-' + what)
+            finally:
+                EV.STATE['quiet'] -= 1
+                os.chdir(cwd)
+    finally:
+        os.chdir(cwd)
+        shutil.rmtree(tmp, ignore_errors=True)
+
+
+import contextlib
+
+
+@contextlib.contextmanager
+def failing_log_handler():
+    """The host's log handler fails on every record (a full disk, a closed socket) - for the duration of the block."""
+    import logging
+
+    class Failing(logging.Handler):
+        def emit(self, record):
+            raise OSError(28, 'No space left on device (injected by the verification workload)')
+    lg = logging.getLogger('mosromgr')
+    h = Failing(level=logging.DEBUG)
+    old = (lg.level, lg.disabled, logging.root.manager.disable)
+    lg.addHandler(h)
+    lg.setLevel(logging.DEBUG)
+    lg.disabled = False
+    logging.disable(logging.NOTSET)
+    try:
+        yield
+    finally:
+        lg.removeHandler(h)
+        lg.setLevel(old[0])
+        lg.disabled = old[1]
+        logging.disable(old[2])
+
+
+def _hc_paths(tmp, i, docs):
+    import os
+    d = os.path.join(tmp, 'c%d' % i)
+    os.makedirs(d, exist_ok=True)
+    paths = []
+    for k, txt in enumerate(docs):
+        p = os.path.join(d, 'm%02d.mos.xml' % k)
+        if os.path.isdir(p):
+            os.rmdir(p)
+        with open(p, 'w', encoding='utf-8') as f:
+            f.write(txt)
+        paths.append(p)
+    return paths
